@@ -9,6 +9,8 @@
   * `interleaving_is_sequential`: hence an execution of any number of threads under any schedule IS the sequential
     execution of its steps in schedule order, each thread's instructions in program order: every returned old value
     is the one of that single total order.
+  * `sb_impossible` / `sb_impossible_any_schedule`: the store-buffering litmus (T0: X := 1; r0 := Y  ||  T1: Y := 1; r1 := X)
+    never ends with both loads returning 0, under any schedule: what a release-ordered store would allow on real hardware.
   * `no_lost_update`: under any schedule of any number of `rmw.add` on one cell the final cell is the initial value
     plus the sum of all operands (mod 2^W): no update is lost.
 -/
@@ -160,5 +162,113 @@ theorem no_lost_update (k N : Nat) (a : Nat) (steps : List (Nat × BitVec N)) (m
 /-- every returned old value is the cell's value in that total order, just before the operation -/
 theorem returned_old_value (k N : Nat) (a : Nat) (v : BitVec N) (m : Mem) :
     ((addStep k (8 * k) N a v).run m).1 = ((cell k (8 * k) m a).setWidth N).toNat := rfl
+
+/-! ## the store-buffering litmus test: sequentially consistent stores and loads across two cells -/
+
+/-- all interleavings of two programs (program order kept) -/
+def merges {α : Type} : List α → List α → List (List α)
+  | [], ys => [ys]
+  | x :: xs, [] => [x :: xs]
+  | x :: xs, y :: ys => ((merges xs (y :: ys)).map (x :: ·)) ++ ((merges (x :: xs) ys).map (y :: ·))
+
+/-- an atomic 32-bit store (returns the marker 99) and an atomic 32-bit load, as single steps of the shared memory -/
+def stStep (a : Nat) (v : BitVec 32) : Step := ⟨fun m => (99, Spec.store 4 m a v)⟩
+def ldStep (a : Nat) : Step := ⟨fun m => ((Spec.load 4 false 32 m a).toNat, m)⟩
+
+theorem ld_after_st_same (m : Mem) (a : Nat) (v : BitVec 32) : Spec.load 4 false 32 (Spec.store 4 m a v) a = v := by
+  have := C05.load_store_roundtrip 4 m a v
+  simp only [Nat.reduceMul] at this
+  rw [this]
+  apply BitVec.eq_of_toNat_eq
+  simp [Nat.mod_eq_of_lt v.isLt]
+
+theorem leValue_congr (m1 m2 : Mem) : ∀ (k a : Nat), (∀ i, a ≤ i → i < a + k → m1.rd i = m2.rd i) → Spec.leValue m1 a k = Spec.leValue m2 a k
+  | 0, _, _ => rfl
+  | k + 1, a, h => by
+    simp only [Spec.leValue]
+    rw [h a (Nat.le_refl _) (by omega), leValue_congr m1 m2 k (a + 1) (fun i h1 h2 => h i (by omega) (by omega))]
+
+theorem ld_after_st_other (m : Mem) (a b : Nat) (v : BitVec 32) (hd : a + 4 ≤ b ∨ b + 4 ≤ a) :
+    Spec.load 4 false 32 (Spec.store 4 m b v) a = Spec.load 4 false 32 m a := by
+  simp only [Spec.load, Bool.false_eq_true, if_false]
+  rw [leValue_congr (Spec.store 4 m b v) m 4 a]
+  intro i h1 h2
+  exact (C05.store_frame 4 m b v i (by omega)).1
+
+/-- **store buffering is impossible**: two threads, two cells X and Y (initially 0): T0 stores 1 to X then loads Y, T1 stores
+    1 to Y then loads X.  In EVERY interleaving of the four single-step accesses at least one of the loads returns 1: the
+    outcome "both loads return 0" (which real hardware produces when the stores are not sequentially consistent) has no
+    total order. -/
+theorem sb_impossible (m0 : Mem) (X Y : Nat) (hd : X + 4 ≤ Y ∨ Y + 4 ≤ X)
+    (hx : Spec.load 4 false 32 m0 X = 0) (hy : Spec.load 4 false 32 m0 Y = 0) :
+    ∀ tr ∈ merges [(0, stStep X 1), (0, ldStep Y)] [(1, stStep Y 1), (1, ldStep X)],
+      ¬ ((0, 0) ∈ (runSeq tr m0).1 ∧ (1, 0) ∈ (runSeq tr m0).1) := by
+  have hd' : Y + 4 ≤ X ∨ X + 4 ≤ Y := hd.symm
+  intro tr htr
+  simp only [merges, List.map_cons, List.map_nil, List.cons_append, List.nil_append, List.mem_cons, List.mem_nil_iff, or_false] at htr
+  rcases htr with rfl | rfl | rfl | rfl | rfl | rfl <;>
+    simp [runSeq, stStep, ldStep, ld_after_st_same, ld_after_st_other, hd, hd', hx, hy]
+
+/-- … and the outcomes in which a load does return 0 exist (the statement is not vacuous): T0 runs completely first -/
+example (m0 : Mem) (hy : Spec.load 4 false 32 m0 8 = 0) :
+    (0, 0) ∈ (runSeq [(0, stStep 0 1), (0, ldStep 8), (1, stStep 8 1), (1, ldStep 0)] m0).1 := by
+  simp [runSeq, stStep, ldStep, ld_after_st_same, ld_after_st_other, hy]
+
+theorem merges_nil_right {α : Type} (xs : List α) : merges xs [] = [xs] := by cases xs <;> simp [merges]
+
+theorem merges_cons_left {α : Type} (a : α) : ∀ (xs ys x : List α), x ∈ merges xs ys → a :: x ∈ merges (a :: xs) ys := by
+  intro xs ys x h
+  cases ys with
+  | nil => rw [merges_nil_right] at h ⊢; simp at h ⊢; exact h
+  | cons y ys => simp only [merges, List.mem_append, List.mem_map]; exact Or.inl ⟨x, h, rfl⟩
+
+theorem merges_cons_right {α : Type} (b : α) : ∀ (xs ys x : List α), x ∈ merges xs ys → b :: x ∈ merges xs (b :: ys) := by
+  intro xs ys x h
+  cases xs with
+  | nil => simp only [merges, List.mem_cons, List.mem_nil_iff, or_false] at h ⊢; rw [h]
+  | cons a xs => simp only [merges, List.mem_append, List.mem_map]; exact Or.inr ⟨x, h, rfl⟩
+
+/-- a complete execution of two threads under ANY schedule is one of the interleavings of their programs -/
+theorem trace_two_mem_merges : ∀ (sched : List Nat) (p0 p1 : List Step),
+    (trace [p0, p1] sched).length = p0.length + p1.length →
+    trace [p0, p1] sched ∈ merges (p0.map fun s => (0, s)) (p1.map fun s => (1, s))
+  | [], p0, p1, h => by
+    simp only [trace, List.length_nil] at h
+    have h0 : p0 = [] := List.eq_nil_of_length_eq_zero (by omega)
+    have h1 : p1 = [] := List.eq_nil_of_length_eq_zero (by omega)
+    subst h0; subst h1; simp [trace, merges]
+  | t :: sched, p0, p1, h => by
+    match t with
+    | 0 =>
+      cases p0 with
+      | nil => simp only [trace, List.getElem?_cons_zero] at h ⊢; exact trace_two_mem_merges sched [] p1 h
+      | cons s rest =>
+        simp only [trace, List.getElem?_cons_zero, List.set_cons_zero, List.length_cons] at h ⊢
+        have := trace_two_mem_merges sched rest p1 (by omega)
+        simp only [List.map_cons]
+        exact merges_cons_left _ _ _ _ this
+    | 1 =>
+      cases p1 with
+      | nil => simp only [trace, List.getElem?_cons_succ, List.getElem?_cons_zero] at h ⊢; exact trace_two_mem_merges sched p0 [] h
+      | cons s rest =>
+        simp only [trace, List.getElem?_cons_succ, List.getElem?_cons_zero, List.set_cons_succ, List.set_cons_zero, List.length_cons] at h ⊢
+        have := trace_two_mem_merges sched p0 rest (by omega)
+        simp only [List.map_cons]
+        exact merges_cons_right _ _ _ _ this
+    | n + 2 =>
+      have hn : [p0, p1][n + 2]? = none := by simp
+      simp only [trace, hn] at h ⊢
+      exact trace_two_mem_merges sched p0 p1 h
+
+/-- the litmus test in terms of schedules: whatever the scheduler does, once both threads have finished, not both loads returned 0 -/
+theorem sb_impossible_any_schedule (m0 : Mem) (X Y : Nat) (hd : X + 4 ≤ Y ∨ Y + 4 ≤ X)
+    (hx : Spec.load 4 false 32 m0 X = 0) (hy : Spec.load 4 false 32 m0 Y = 0) (sched : List Nat)
+    (hfin : (trace [[stStep X 1, ldStep Y], [stStep Y 1, ldStep X]] sched).length = 4) :
+    ¬ ((0, 0) ∈ (exec [[stStep X 1, ldStep Y], [stStep Y 1, ldStep X]] sched m0).1 ∧
+       (1, 0) ∈ (exec [[stStep X 1, ldStep Y], [stStep Y 1, ldStep X]] sched m0).1) := by
+  rw [interleaving_is_sequential]
+  have hm := trace_two_mem_merges sched [stStep X 1, ldStep Y] [stStep Y 1, ldStep X] (by simpa using hfin)
+  simp only [List.map_cons, List.map_nil] at hm
+  exact sb_impossible m0 X Y hd hx hy _ hm
 
 end W2c2Verif.Props.C16
